@@ -1258,6 +1258,11 @@ pub fn run(args: &Args, out: &mut dyn Write) -> Stats {
     for (i, e) in exs.iter().enumerate() {
         writeln!(out, "{}", example_case(i as u64, e, &mut stats).0).unwrap();
     }
+    // every duration / integer valued key with every boundary value, min x max intervals (every run)
+    for y in yamlgen::sweep() {
+        let text = yamlgen::render(&y);
+        writeln!(out, "{}", doc_case(1, &text, &mut stats, "sweep").0).unwrap();
+    }
     let n = args.n.max(10);
     // (a) grammar documents: 45 %
     for i in 0..n * 45 / 100 {
